@@ -597,6 +597,38 @@ Proof.
     rewrite He, Hr by discriminate; reflexivity.
 Qed.
 
+(* the same for ANY python type of the element: the entry is the typed conversion of the MASKED text (of the prefix),
+   never of the clear value - when that conversion fails (a masked value is not a number) decoding fails *)
+Lemma if_pan_entries_typed cfg cd data f es : field_rel cfg cd data f es ->
+  forall c, cfg_get cfg (fr_bit f) = Some c ->
+  forall clear, decode cd (slice (fr_off f + fr_plen f) (fr_end f) data) = Ok clear ->
+  (f_proc c = PPAN -> exists v, string_to_pytype (mask clear star) c = Ok v /\ es = [(KDE (fr_bit f), v)]) /\
+  (f_proc c = PPANPREFIX -> exists v, string_to_pytype (firstn 9 clear) c = Ok v /\ es = [(KDE (fr_bit f), v)]).
+Proof.
+  intros Hf c Hc clear Hd.
+  destruct (field_rel_facts _ _ _ _ _ Hf) as (c' & v & rest & Hc' & _ & Hv & He & _ & Hr).
+  rewrite Hc in Hc'. inversion Hc'; subst c'. unfold elem_value in Hv.
+  split; intros Hp; rewrite Hp in Hv, Hr; rewrite Hd in Hv; cbn [bind] in Hv;
+    exists v; (split; [exact Hv | rewrite He, Hr by discriminate; reflexivity]).
+Qed.
+
+Lemma c16_decode_typed : forall cfg cd hexbm b d, loads cfg cd hexbm b = Ok d ->
+  exists mti frames ess,
+    let data := skipn (if hexbm then 36 else 20) b in
+    tiles frames 0 (length data) /\
+    d = fold_left dupdate ess [(KMTI, VStr mti)] /\
+    Forall2 (fun f es => forall c, cfg_get cfg (fr_bit f) = Some c ->
+               forall clear, decode cd (slice (fr_off f + fr_plen f) (fr_end f) data) = Ok clear ->
+               (f_proc c = PPAN -> exists v, string_to_pytype (mask clear star) c = Ok v /\ es = [(KDE (fr_bit f), v)]) /\
+               (f_proc c = PPANPREFIX -> exists v, string_to_pytype (firstn 9 clear) c = Ok v /\ es = [(KDE (fr_bit f), v)])) frames ess.
+Proof.
+  intros cfg cd hexbm b d H.
+  destruct (loads_inv _ _ _ _ _ H) as (bm & mti & frames & ess & _ & _ & _ & Ht & HF & Hd).
+  exists mti, frames, ess. cbv zeta. fold (hdr hexbm).
+  split; [exact Ht|]. split; [exact Hd|].
+  eapply if_Forall2_impl; [|exact HF]. intros f es. apply if_pan_entries_typed.
+Qed.
+
 Lemma c16_decode : forall cfg cd hexbm b d, loads cfg cd hexbm b = Ok d ->
   exists mti frames ess,
     let data := skipn (if hexbm then 36 else 20) b in
